@@ -50,6 +50,10 @@ func UpdateList[T any](remoteWrite bool, existingData []T, newData []T, filterPa
 	// process update filter (with selectors and elements)
 	if filterPartial != nil {
 		if filterData, err := filterPartial.Data(); err == nil {
+			// a selector without any data to copy changes nothing
+			if len(newData) == 0 {
+				return existingData, success
+			}
 			newData, noErrors := copyToSelectedData(remoteWrite, existingData, filterData, &newData[0])
 			if !noErrors {
 				success = false
